@@ -152,6 +152,37 @@ def job_polynomial(job):
             for c in monos[:8]:
                 if compare(a, b) < 0 and compare(b, c) < 0 and not compare(a, c) < 0:
                     fail({'what': 'compare is not transitive', 'a': a, 'b': b, 'c': c})
+    # ring laws as zero tests: both sides denote the same function but are computed along different routes (different
+    # intermediate term orders), so their difference must be recognised as zero by == 0 and by truthiness
+    def rnd_poly(depth=2):
+        if depth == 0 or rng.random() < 0.25:
+            return RationalPolynomial.fromname(rng.choice(names)) if rng.random() < 0.8 else RationalPolynomial([[rng.choice([1, 2, -1, 3])]])
+        a, b = rnd_poly(depth - 1), rnd_poly(depth - 1)
+        return a + b if rng.random() < 0.6 else a * b
+    laws = [('p*(q+r) == p*q + p*r', lambda p_, q, r: p_ * (q + r) - (p_ * q + p_ * r)),
+            ('(q+r)*p == q*p + r*p', lambda p_, q, r: (q + r) * p_ - (q * p_ + r * p_)),
+            ('p*q == q*p', lambda p_, q, r: p_ * q - q * p_),
+            ('(p+q)*(p-q) == p*p - q*q', lambda p_, q, r: (p_ + q) * (p_ - q) - (p_ * p_ - q * q)),
+            ('(p*q)*r == p*(q*r)', lambda p_, q, r: (p_ * q) * r - p_ * (q * r)),
+            ('(p+q)+r == p+(q+r)', lambda p_, q, r: ((p_ + q) + r) - (p_ + (q + r))),
+            ('p/q*q == p', lambda p_, q, r: (p_ / q) * q - p_ if q != 0 else RationalPolynomial([]))]
+    for it in range(max(40, job.get('trees', 200) // 3)):
+        p_, q, r = rnd_poly(), rnd_poly(), rnd_poly()
+        for name, f in laws:
+            out['evaluations'] += 1
+            try:
+                z = f(p_, q, r)
+                dz = den_rat(z)
+                if not rat_eq(dz, (Poly(), Poly.const(1))):
+                    fail({'what': 'ring law violated (value)', 'law': name, 'p': str(p_)[:120], 'q': str(q)[:120], 'r': str(r)[:120]})
+                elif bool(z) or not (z == 0):
+                    fail({'what': 'zero test is not exact: a difference denoting the zero function is not recognised as zero', 'law': name,
+                          'p': str(getattr(p_.numer, 'args', p_))[:120], 'q': str(getattr(q.numer, 'args', q))[:120], 'r': str(getattr(r.numer, 'args', r))[:120],
+                          'result_numer_args': str(getattr(getattr(z, 'numer', z), 'args', None))[:200]})
+            except ZeroDivisionError:
+                pass
+            except Exception as e:
+                fail({'what': 'ring-law evaluation raised', 'law': name, 'error': type(e).__name__ + ': ' + str(e)[:100]})
     out['distinct'] = len(distinct)
     return out
 
